@@ -88,6 +88,7 @@ class C09(Prop):
             'n': st.one_of(st.integers(1, 60), st.integers(1, 60), st.integers(61, 1500),
                            st.sampled_from([255, 256, 1000, 1001, 1024, 2048, 4096])),
             'fail_every': st.sampled_from([0, 0, 3, 7]),
+            'second_wave': st.booleans(),
         })
         return st.one_of(sim, sim, sim, sim, sim, sim, real, burst)
 
@@ -274,6 +275,27 @@ class C09(Prop):
                             {'backlog': i, 'calls_during_push': len(channel.calls)})
                 return out
         pool.drain()
+        if recipe.get('second_wave'):
+            # the first wave is delivered (or has failed) and is garbage now; the snapshots of a second wave are new
+            # objects - some of them at the addresses of the old ones - and are handed over like any other
+            out.cls('second_wave_after_garbage')
+            del s
+            base_n = len(pool.tasks)
+            for i in range(min(n, 200)):
+                s2 = mk_snapshot()
+                outcomes[s2.id] = 'ok'
+                ids.append((s2.id, 'ok'))
+                try:
+                    ps.push_snapshot(s2)
+                except BaseException as e:      # noqa
+                    out.violate('push_snapshot raised %s' % type(e).__name__, {'second_wave': i})
+                    return out
+                if len(pool.tasks) != base_n + i + 1:
+                    out.violate('push_snapshot did not hand the work to the background executor (sent inline?)',
+                                {'second_wave': i})
+                    return out
+                del s2
+            pool.drain()
         try:
             th.flush()
         except BaseException as e:      # noqa
